@@ -13,6 +13,7 @@ package simrt
 
 import (
 	"fmt"
+	"strings"
 	"runtime"
 	"sort"
 	"sync"
@@ -50,6 +51,7 @@ type Task struct {
 	sim     *Sim
 	parks, awParks int64
 	Panic   string // set when the task's function panicked (a real process would have died)
+	PanicAt string // innermost function of the code under test on the panicking stack
 }
 
 // Sim is the state of one simulated run.
@@ -333,7 +335,8 @@ func taskMain(t *Task, f func()) {
 	defer func() {
 		if r := recover(); r != nil {
 			t.Panic = fmt.Sprint(r)
-			t.Log("panic", t.Panic)
+			t.PanicAt = PanicOrigin()
+			t.Log("panic", t.Panic+" at "+t.PanicAt)
 		}
 		t.Exited = true
 		t.Waiting = ""
@@ -650,4 +653,34 @@ func DB[F any](site string, m func(F) error, fn F) error {
 	err := m(fn)
 	enter()
 	return err
+}
+
+// PanicOrigin must be called from a deferred function that recovered a panic: it returns
+// the innermost function on the panicking stack that belongs to the code under test
+// (not the runtime, not simrt, not the harness).
+func PanicOrigin() string {
+	pcs := make([]uintptr, 64)
+	n := runtime.Callers(2, pcs)
+	frames := runtime.CallersFrames(pcs[:n])
+	first := ""
+	for {
+		f, more := frames.Next()
+		fn := f.Function
+		if strings.Contains(fn, "Computantis/src/") || strings.Contains(fn, "heimdalr/dag") {
+			if i := strings.LastIndex(fn, "/"); i >= 0 {
+				fn = fn[i+1:]
+			}
+			return fn
+		}
+		if first == "" && fn != "" && !strings.HasPrefix(fn, "runtime.") && !strings.Contains(fn, "simrt.") {
+			first = fn
+		}
+		if !more {
+			break
+		}
+	}
+	if i := strings.LastIndex(first, "/"); i >= 0 {
+		first = first[i+1:]
+	}
+	return first
 }
